@@ -36,7 +36,7 @@ def sh(cmd, cwd=None, timeout=None, env=None):
     e['RUST_BACKTRACE'] = '0'
     if env:
         e.update(env)
-    p = subprocess.run(cmd, cwd=cwd, stdout=subprocess.PIPE, stderr=subprocess.STDOUT, text=True, timeout=timeout,
+    p = subprocess.run(cmd, cwd=cwd, stdin=subprocess.DEVNULL, stdout=subprocess.PIPE, stderr=subprocess.STDOUT, text=True, timeout=timeout,
                        env=e, shell=isinstance(cmd, str))
     return p.returncode, p.stdout
 
@@ -83,8 +83,20 @@ def harness_dir():
     toml = open(os.path.join(HARNESS, 'Cargo.toml')).read().replace('path = "/repo"', 'path = "%s"' % os.path.realpath(REPO))
     if not os.path.exists(os.path.join(d, 'Cargo.toml')) or open(os.path.join(d, 'Cargo.toml')).read() != toml:
         open(os.path.join(d, 'Cargo.toml'), 'w').write(toml)
-    open(os.path.join(d, '.cargo', 'config.toml'), 'w').write(open(os.path.join(HARNESS, '.cargo', 'config.toml')).read())
+    cfg = open(os.path.join(HARNESS, '.cargo', 'config.toml')).read()
+    cp = os.path.join(d, '.cargo', 'config.toml')
+    if not os.path.exists(cp) or open(cp).read() != cfg:
+        open(cp, 'w').write(cfg)
     return d
+
+
+def harness_target_warm(features=(), profile='release'):
+    """has this variant of the harness been built before in this tree (its target directory exists)?"""
+    feats = sorted(features)
+    tag = '-'.join(feats) if feats else 'default'
+    hdir = harness_dir()
+    tdir = os.path.join(hdir, 'target' if (not feats and profile == 'release') else 'target-%s-%s' % (tag, profile))
+    return os.path.isdir(os.path.join(tdir, 'release' if profile == 'release' else 'debug'))
 
 
 def harness_bin(features=(), profile='release'):
@@ -108,6 +120,12 @@ def harness_bin(features=(), profile='release'):
         if feats:
             cmd += ['--features', ','.join(feats)]
         rc, out = sh(cmd, cwd=hdir, timeout=1800)
+        if rc != 0:
+            # a failed build is a verdict ("the harness does not build against this tree"), so make sure it
+            # is not an artefact of a loaded machine (several cargo processes competing for locks): once more
+            log('harness build failed (features=%s profile=%s); retrying once\n%s' % (tag, profile, out[-1500:]))
+            time.sleep(5)
+            rc, out = sh(cmd, cwd=hdir, timeout=1800)
     if rc != 0:
         log(out[-4000:])
         return None
